@@ -485,4 +485,241 @@ Lemma rss_composition : forall t,
 Proof. named_format tt. Qed.
 
 Lemma rfc3339_composition : forall t, string_helper [116;111;95;114;102;99;51;51;51;57;95;115;116;114;105;110;103] t = Ok (isoformat_T t).
-Proof. named_format tt. Qed.
+Proof. intros t. reflexivity. Qed.
+
+(* ------------------------------------------------------------------ from_format after matching: _get_parsed_value inverts the renderings *)
+Ltac gpv v :=
+  intros; unfold get_parsed_value;
+  match goal with |- context [assoc ?k parse_tokens] => let x := eval vm_compute in (assoc k parse_tokens) in change (assoc k parse_tokens) with x end;
+  cbv beta iota; rewrite (py_int_render_0wd _ v) by lia;
+  cbn [contains memZ existsb Z.eqb Pos.eqb str_eqb orb andb bind T_Z T_ZZ];
+  rewrite ?Z.mul_1_r, ?Z.add_0_r; try reflexivity.
+
+Lemma parsed_YYYY zones y p : 0 <= y -> get_parsed_value zones [89;89;89;89] (render_0wd 4 y) p = Ok (set_year (Some y) p).
+Proof. gpv y. Qed.
+Lemma parsed_MM zones v p : 0 <= v -> get_parsed_value zones [77;77] (render_0wd 2 v) p = Ok (set_month (Some v) p).
+Proof. gpv v. Qed.
+Lemma parsed_DD zones v p : 0 <= v -> get_parsed_value zones [68;68] (render_0wd 2 v) p = Ok (set_day (Some v) p).
+Proof. gpv v. Qed.
+Lemma parsed_HH zones v p : 0 <= v -> get_parsed_value zones [72;72] (render_0wd 2 v) p = Ok (set_hour (Some v) p).
+Proof. gpv v. Qed.
+Lemma parsed_mm zones v p : 0 <= v -> get_parsed_value zones [109;109] (render_0wd 2 v) p = Ok (set_minute (Some v) p).
+Proof. gpv v. Qed.
+Lemma parsed_ss zones v p : 0 <= v -> get_parsed_value zones [115;115] (render_0wd 2 v) p = Ok (set_second (Some v) p).
+Proof. gpv v. Qed.
+Lemma parsed_S6 zones v p : 0 <= v -> get_parsed_value zones [83;83;83;83;83;83] (render_0wd 6 v) p = Ok (set_micro (Some v) p).
+Proof. gpv v. Qed.
+(* a narrower fraction token reads back the truncated microseconds: SSS renders us/1000 and parses to (us/1000)*1000 *)
+Lemma parsed_S3 zones v p : 0 <= v -> get_parsed_value zones [83;83;83] (render_0wd 3 v) p = Ok (set_micro (Some (v * 1000)) p).
+Proof. gpv v. Qed.
+
+Lemma two_digits s : all_digits s -> length s = 2%nat -> exists a b, s = [a; b] /\ 48 <= a <= 57 /\ 48 <= b <= 57.
+Proof.
+  intros Hd Hl. destruct s as [|a [|b [|c s]]]; try discriminate.
+  inversion Hd as [|? ? Ha Hd']; subst. inversion Hd' as [|? ? Hb _]; subst. eauto.
+Qed.
+
+Lemma parse_offset_digits (colon : bool) sg a b c d :
+  sg = 43 \/ sg = 45 -> 48 <= a <= 57 -> 48 <= b <= 57 -> 48 <= c <= 57 -> 48 <= d <= 57 ->
+  parse_offset (sg :: [a; b] ++ (if colon then [58] else []) ++ [c; d]) =
+    Ok ((if sg =? 45 then -1 else 1) * ((value_of_digits [a; b] * 60 + value_of_digits [c; d]) * 60)).
+Proof.
+  intros Hs Ha Hb Hc Hd.
+  assert (Ea : (58 =? a) = false) by lia. assert (Eb : (58 =? b) = false) by lia.
+  assert (Ec : (58 =? c) = false) by lia. assert (Ed : (58 =? d) = false) by lia.
+  assert (Ea' : (a =? 58) = false) by lia. assert (Eb' : (b =? 58) = false) by lia.
+  assert (Ec' : (c =? 58) = false) by lia. assert (Ed' : (d =? 58) = false) by lia.
+  assert (P1 : py_int [a; b] = Some (value_of_digits [a; b])).
+  { apply py_int_digits; [repeat constructor; lia|discriminate]. }
+  assert (P2 : py_int [c; d] = Some (value_of_digits [c; d])).
+  { apply py_int_digits; [repeat constructor; lia|discriminate]. }
+  destruct colon; destruct Hs as [-> | ->]; unfold parse_offset;
+    cbn [skipn app contains memZ existsb split_colon length Nat.eqb firstn negb orb];
+    rewrite ?Ea, ?Eb, ?Ec, ?Ed, ?Ea', ?Eb', ?Ec', ?Ed'; cbn [orb negb Z.eqb Pos.eqb bind];
+    rewrite ?Ea', ?Eb', ?Ec', ?Ed'; cbn [bind]; rewrite P1, P2; cbn [Z.eqb Pos.eqb]; f_equal; lia.
+Qed.
+
+(* the offset token: parse_offset inverts format_offset for whole-minute offsets below 100 hours *)
+Lemma parse_format_offset t colon :
+  t_has_tz t = true -> t_off t mod 60 = 0 -> Z.abs (t_off t) < 360000 ->
+  parse_offset (format_offset t colon) = Ok (t_off t).
+Proof.
+  intros Htz Hm Hb. rewrite (format_offset_minutes t colon Htz Hm).
+  set (H := Z.abs (t_off t) / 3600). set (M := Z.abs (t_off t) / 60 mod 60).
+  assert (HH : 0 <= H < 10 ^ Z.of_nat 2) by (subst H; cbn; lia).
+  assert (HM : 0 <= M < 10 ^ Z.of_nat 2) by (subst M; cbn; lia).
+  destruct (two_digits (render_0wd 2 H)) as (a & b & Eab & Ha & Hb').
+  { apply render_0wd_digits. lia. } { apply (render_0wd_length 2 H HH). lia. }
+  destruct (two_digits (render_0wd 2 M)) as (c & d & Ecd & Hc & Hd).
+  { apply render_0wd_digits. lia. } { apply (render_0wd_length 2 M HM). lia. }
+  pose proof (render_0wd_value 2 H (proj1 HH)) as VH. pose proof (render_0wd_value 2 M (proj1 HM)) as VM.
+  rewrite Eab in *. rewrite Ecd in *.
+  rewrite (parse_offset_digits colon _ a b c d); try assumption.
+  - rewrite VH, VM. f_equal. subst H M. destruct (0 <=? t_off t) eqn:E; cbn [Z.eqb Pos.eqb]; lia.
+  - destruct (0 <=? t_off t); [left|right]; reflexivity.
+Qed.
+
+Lemma parsed_Z zones t p : t_has_tz t = true -> t_off t mod 60 = 0 -> Z.abs (t_off t) < 360000 ->
+  get_parsed_value zones T_Z (format_offset t true) p = Ok (set_tz (Some (TzFixed (t_off t))) p).
+Proof.
+  intros H1 H2 H3. unfold get_parsed_value.
+  change (assoc T_Z parse_tokens) with (Some PStr). cbv beta iota.
+  cbn [contains memZ existsb Z.eqb Pos.eqb str_eqb orb andb T_Z T_ZZ].
+  rewrite (parse_format_offset t true H1 H2 H3). reflexivity.
+Qed.
+
+Lemma parsed_ZZ zones t p : t_has_tz t = true -> t_off t mod 60 = 0 -> Z.abs (t_off t) < 360000 ->
+  get_parsed_value zones T_ZZ (format_offset t false) p = Ok (set_tz (Some (TzFixed (t_off t))) p).
+Proof.
+  intros H1 H2 H3. unfold get_parsed_value.
+  change (assoc T_ZZ parse_tokens) with (Some PStr). cbv beta iota.
+  cbn [contains memZ existsb Z.eqb Pos.eqb str_eqb orb andb T_Z T_ZZ].
+  rewrite (parse_format_offset t false H1 H2 H3). reflexivity.
+Qed.
+
+(* ------------------------------------------------------------------ _check_parsed *)
+(* every field present, no quarter / day-of-year / weekday / meridiem: the fields are returned as they are *)
+Lemma check_parsed_all rs y m d hh mi ss us tz now :
+  check_parsed rs (mkparsed (Some y) (Some m) (Some d) (Some hh) (Some mi) (Some ss) (Some us) tz None None None None) now
+  = Ok (y, m, d, hh, mi, ss, us, tz).
+Proof. reflexivity. Qed.
+
+(* defaulting rules for absent fields (no quarter / day-of-year / weekday / meridiem) *)
+Lemma check_parsed_time_only rs hh mi ss us tz now :
+  check_parsed rs (mkparsed None None None hh mi ss us tz None None None None) now
+  = Ok (n_year now, n_month now, n_day now,
+        match hh with Some v => v | None => 0 end, match mi with Some v => v | None => 0 end,
+        match ss with Some v => v | None => 0 end, match us with Some v => v | None => 0 end, tz).
+Proof. reflexivity. Qed.
+
+Lemma check_parsed_year_only rs y now :
+  check_parsed rs (mkparsed (Some y) None None None None None None None None None None None) now = Ok (y, 1, 1, 0, 0, 0, 0, None).
+Proof. reflexivity. Qed.
+
+Lemma check_parsed_month_day rs m d now : m <> 0 -> d <> 0 ->
+  check_parsed rs (mkparsed None (Some m) (Some d) None None None None None None None None None) now = Ok (n_year now, m, d, 0, 0, 0, 0, None).
+Proof. reflexivity. Qed.
+
+Lemma check_parsed_month_only rs m now :
+  check_parsed rs (mkparsed None (Some m) None None None None None None None None None None) now = Ok (n_year now, m, 1, 0, 0, 0, 0, None).
+Proof. reflexivity. Qed.
+
+Lemma check_parsed_day_only rs d now : d <> 0 ->
+  check_parsed rs (mkparsed None None (Some d) None None None None None None None None None) now = Ok (n_year now, n_month now, d, 0, 0, 0, 0, None).
+Proof. reflexivity. Qed.
+
+(* ------------------------------------------------------------------ from_format inverts format: YYYY-MM-DD HH:mm:ss.SSSSSS Z *)
+Definition iso_fmt (colon : bool) : str :=
+  [89;89;89;89;45;77;77;45;68;68;32;72;72;58;109;109;58;115;115;46;83;83;83;83;83;83;32] ++ (if colon then T_Z else T_ZZ).
+
+Definition iso_render (colon : bool) (t : pdt) : str :=
+  render_0wd 4 (t_year t) ++ [45] ++ render_0wd 2 (t_month t) ++ [45] ++ render_0wd 2 (t_day t) ++ [32]
+  ++ render_0wd 2 (t_hour t) ++ [58] ++ render_0wd 2 (t_minute t) ++ [58] ++ render_0wd 2 (t_second t) ++ [46]
+  ++ render_0wd 6 (t_micro t) ++ [32] ++ format_offset t colon.
+
+Lemma iso_format colon t : 1000 <= t_year t <= 9999 -> format [101;110] t (iso_fmt colon) = Ok (iso_render colon t).
+Proof.
+  intros Hy. unfold format. rewrite en_locale_is_en. destruct colon; cbn [iso_fmt app T_Z T_ZZ format_loc length];
+    compute_tokenize; cbn [render_pieces bind]; rewrite (tok_YYYY_4 _ _ _ Hy); cbn [bind]; repeat render_step;
+    rewrite ?app_nil_r; reflexivity.
+Qed.
+
+(* the groups of the assembled pattern, in definition order, and the text each one captures from the rendering *)
+Definition iso_names (colon : bool) : list str :=
+  [[89;89;89;89]; [77;77]; [68;68]; [72;72]; [109;109]; [115;115]; [83;83;83;83;83;83]; if colon then T_Z else T_ZZ].
+
+Definition iso_caps (colon : bool) (t : pdt) : caps :=
+  [(if colon then T_Z else T_ZZ, format_offset t colon); ([83;83;83;83;83;83], render_0wd 6 (t_micro t));
+   ([115;115], render_0wd 2 (t_second t)); ([109;109], render_0wd 2 (t_minute t)); ([72;72], render_0wd 2 (t_hour t));
+   ([68;68], render_0wd 2 (t_day t)); ([77;77], render_0wd 2 (t_month t)); ([89;89;89;89], render_0wd 4 (t_year t))].
+
+Lemma iso_pattern_names colon : exists r, parse_pattern loc_en (iso_fmt colon) = Ok (iso_names colon, r).
+Proof. destruct colon; eexists; vm_compute; reflexivity. Qed.
+
+Definition dt_in_range (t : pdt) : Prop :=
+  0 <= t_year t /\ 0 <= t_month t /\ 0 <= t_day t /\ 0 <= t_hour t /\ 0 <= t_minute t /\ 0 <= t_second t /\ 0 <= t_micro t /\
+  t_has_tz t = true /\ t_off t mod 60 = 0 /\ Z.abs (t_off t) < 360000.
+
+Ltac closed_existsb :=
+  repeat match goal with
+         | |- context [existsb ?f localizable_tokens] =>
+           let v := eval vm_compute in (existsb f localizable_tokens) in change (existsb f localizable_tokens) with v
+         end.
+
+(* after the match: _get_parsed_values on the captured renderings followed by _check_parsed gives back the fields and the offset *)
+Lemma parse_finish_iso rs zones now colon t : dt_in_range t ->
+  parse_finish rs zones loc_en (iso_names colon) [iso_caps colon t] now =
+  Ok (t_year t, t_month t, t_day t, t_hour t, t_minute t, t_second t, t_micro t, Some (TzFixed (t_off t))).
+Proof.
+  intros (Hy & Hm & Hd & Hh & Hmi & Hs & Hus & Htz & Hom & Hob).
+  unfold parse_finish. cbn [fold_matches].
+  destruct colon; cbn [iso_names iso_caps get_parsed_values assoc str_eqb Z.eqb Pos.eqb andb T_Z T_ZZ]; closed_existsb; cbv iota;
+    rewrite parsed_YYYY by lia; cbn [bind get_parsed_values assoc str_eqb Z.eqb Pos.eqb andb];
+    rewrite parsed_MM by lia; cbn [bind get_parsed_values assoc str_eqb Z.eqb Pos.eqb andb];
+    rewrite parsed_DD by lia; cbn [bind get_parsed_values assoc str_eqb Z.eqb Pos.eqb andb];
+    rewrite parsed_HH by lia; cbn [bind get_parsed_values assoc str_eqb Z.eqb Pos.eqb andb];
+    rewrite parsed_mm by lia; cbn [bind get_parsed_values assoc str_eqb Z.eqb Pos.eqb andb];
+    rewrite parsed_ss by lia; cbn [bind get_parsed_values assoc str_eqb Z.eqb Pos.eqb andb];
+    rewrite parsed_S6 by lia; cbn [bind get_parsed_values assoc str_eqb Z.eqb Pos.eqb andb].
+  - change [90] with T_Z. rewrite (parsed_Z zones t _ Htz Hom Hob). reflexivity.
+  - change [90; 90] with T_ZZ. rewrite (parsed_ZZ zones t _ Htz Hom Hob). reflexivity.
+Qed.
+
+Lemma iso_has_tokens colon :
+  forallb (fun p => match p with FLit _ => true | _ => false end)
+          (ff_tokenize (S (length (re_escape (iso_fmt colon)))) [] (re_escape (iso_fmt colon))) = false.
+Proof. destruct colon; vm_compute; reflexivity. Qed.
+
+Lemma iso_names_nodup colon : has_dup (iso_names colon) = false.
+Proof. destruct colon; vm_compute; reflexivity. Qed.
+
+Section InversePartial.
+  Variables (rs : bool) (zones : list str) (now : pnow) (colon : bool) (t : pdt).
+  Hypothesis Hrange : dt_in_range t.
+  Hypothesis Hyear : 1000 <= t_year t <= 9999.
+  (* the regex matching step — validated on every run by the correspondence streams roundtrip-full / nonmatching:
+     r is the assembled pattern; the anchored search succeeds on the rendering and the re.sub pass finds exactly one match,
+     whose groups are the rendered tokens *)
+  Variable r : re.
+  Hypothesis Hpat : parse_pattern loc_en (iso_fmt colon) = Ok (iso_names colon, r).
+  Hypothesis Hsearch : search_anchored r (iso_render colon t) = true.
+  Hypothesis Hsub : sub_matches (S (length (iso_render colon t))) r (iso_render colon t) = Some [iso_caps colon t].
+
+  Lemma from_format_inverts_iso :
+    bind (format [101;110] t (iso_fmt colon)) (fun s => parse rs zones [101;110] now s (iso_fmt colon)) =
+    Ok (t_year t, t_month t, t_day t, t_hour t, t_minute t, t_second t, t_micro t, Some (TzFixed (t_off t))).
+  Proof.
+    rewrite (iso_format colon t Hyear). cbn [bind].
+    unfold parse. cbv zeta. rewrite iso_has_tokens, en_locale_is_en.
+    unfold parse_pattern in Hpat. cbv zeta in Hpat.
+    destruct (assemble loc_en (ff_tokenize (S (length (re_escape (iso_fmt colon)))) [] (re_escape (iso_fmt colon)))) as [els|e] eqn:Ea;
+      [|discriminate].
+    cbn [bind] in Hpat. injection Hpat as Hn Hr.
+    cbn [bind]. rewrite Hn, Hr, iso_names_nodup, Hsearch. cbn [negb]. rewrite Hsub.
+    apply parse_finish_iso. exact Hrange.
+  Qed.
+End InversePartial.
+
+(* the hypotheses are satisfiable: a concrete DateTime for which the model computes exactly these matches *)
+Definition iso_sample : pdt := mkpdt 2020 2 29 13 14 15 123456 true 19800 [] [].
+Lemma iso_sample_in_range : dt_in_range iso_sample /\ 1000 <= t_year iso_sample <= 9999.
+Proof. unfold dt_in_range. cbn. repeat split; lia. Qed.
+Lemma iso_sample_matches colon :
+  exists r, parse_pattern loc_en (iso_fmt colon) = Ok (iso_names colon, r)
+            /\ search_anchored r (iso_render colon iso_sample) = true
+            /\ sub_matches (S (length (iso_render colon iso_sample))) r (iso_render colon iso_sample) = Some [iso_caps colon iso_sample].
+Proof. destruct colon; eexists; repeat split; vm_compute; reflexivity. Qed.
+
+(* a string that the anchored pattern does not match is rejected with ValueError (any format with at least one token) *)
+Lemma parse_mismatch_valueerror rs zones lname loc now time fmt names r :
+  find_locale lname = Some loc ->
+  forallb (fun p => match p with FLit _ => true | _ => false end) (ff_tokenize (S (length (re_escape fmt))) [] (re_escape fmt)) = false ->
+  parse_pattern loc fmt = Ok (names, r) -> has_dup names = false ->
+  search_anchored r time = false ->
+  parse rs zones lname now time fmt = Raise E_ValueError.
+Proof.
+  intros Hl Ht Hp Hd Hs. unfold parse. cbv zeta. rewrite Ht, Hl.
+  unfold parse_pattern in Hp. cbv zeta in Hp.
+  destruct (assemble loc (ff_tokenize (S (length (re_escape fmt))) [] (re_escape fmt))) as [els|e]; [|discriminate].
+  cbn [bind] in Hp. injection Hp as Hn Hr. cbn [bind]. rewrite Hn, Hr, Hd, Hs. reflexivity.
+Qed.
